@@ -308,7 +308,36 @@ func checkSynchronizers(r *Run, p *Prog) {
 			}
 			return true
 		})
-		r.Ob("C07.R2.sync", pk+": a refusal from any leaseholder clears the merged acknowledgement", p.Position(syncF.Pos()), okClear, "")
+		if pk == dwPkg {
+			r.Ob("C07.R2.sync", pk+": a refusal from any leaseholder clears the merged acknowledgement", p.Position(syncF.Pos()), okClear, "")
+		} else {
+			// the iterator's acknowledgement is merged with the same connective the storage
+			// engine uses across its channel iterators (sibling agreement)
+			dist := ackConnective(syncF, func(sel *ast.SelectorExpr) bool {
+				inner, ok := ast.Unparen(sel.X).(*ast.SelectorExpr)
+				return ok && sel.Sel.Name == "Ack" && fieldVar(syncF, inner) == cycle
+			})
+			engine := ""
+			for _, name := range []string{"execWithResponse", "execWithoutResponse"} {
+				ef := p.Func("cesium", "streamIterator", name)
+				if ef == nil {
+					r.Undecide("C07.R2: cesium.streamIterator.%s not found", name)
+					continue
+				}
+				var okObj types.Object
+				if ef.Type.Results != nil && len(ef.Type.Results.List) == 1 && len(ef.Type.Results.List[0].Names) == 1 {
+					okObj = ef.Pkg.TypesInfo.Defs[ef.Type.Results.List[0].Names[0]]
+				}
+				cn := ackConnective(ef, nil, okObj)
+				if engine == "" {
+					engine = cn
+				} else if engine != cn {
+					engine = "mixed"
+				}
+			}
+			r.Ob("C07.R2.sync", pk+": per-node acknowledgements are merged with the connective the engine uses across channels", p.Position(syncF.Pos()), dist == engine && (dist == "or" || dist == "and"),
+				fmt.Sprintf("distribution merges with %q, cesium.streamIterator with %q: with different connectives the result of Next/Prev/Seek*/Valid depends on where the channels live", dist, engine))
+		}
 		// (c) sized by unique leaseholders
 		okCount := false
 		for _, call := range CallsIn(ns, calleeIs(newS)) {
@@ -504,4 +533,49 @@ func checkMaskDiscipline(r *Run, p *Prog) {
 	if n < 8 {
 		r.Undecide("C07.R4: only %d loops over raw frame contents found (expected >= 8)", n)
 	}
+}
+
+// ackConnective classifies how a function accumulates a boolean: "or" when the only
+// constant it assigns is true (under a positive test), "and" when it is false, "mixed" /
+// "none" otherwise. The accumulator is a selector accepted by isSel or one of objs.
+func ackConnective(fn *FuncNode, isSel func(*ast.SelectorExpr) bool, objs ...types.Object) string {
+	sawTrue, sawFalse := false, false
+	ast.Inspect(fn.Body, func(n ast.Node) bool {
+		as, ok := n.(*ast.AssignStmt)
+		if !ok || len(as.Lhs) != 1 || len(as.Rhs) != 1 {
+			return true
+		}
+		hit := false
+		if sel, ok := ast.Unparen(as.Lhs[0]).(*ast.SelectorExpr); ok && isSel != nil && isSel(sel) {
+			hit = true
+		}
+		if o := objOf(fn, as.Lhs[0]); o != nil {
+			for _, want := range objs {
+				if want != nil && o == want {
+					hit = true
+				}
+			}
+		}
+		if !hit {
+			return true
+		}
+		if id, ok := ast.Unparen(as.Rhs[0]).(*ast.Ident); ok {
+			switch id.Name {
+			case "true":
+				sawTrue = true
+			case "false":
+				sawFalse = true
+			}
+		}
+		return true
+	})
+	switch {
+	case sawTrue && sawFalse:
+		return "mixed"
+	case sawTrue:
+		return "or"
+	case sawFalse:
+		return "and"
+	}
+	return "none"
 }
